@@ -37,7 +37,7 @@ _cache = {}
 
 
 def gen_case(rng):
-    opts = kgen.Opts(p_part=rng.choice([0.1, 0.5, 0.8, 0.95]), id_pool=4, fancy_ids=True, max_rows=5, image_pool=5,
+    opts = kgen.Opts(unordered_pairs=0.3, p_part=rng.choice([0.1, 0.5, 0.8, 0.95]), id_pool=4, fancy_ids=True, max_rows=5, image_pool=5,
                      partial_poses=True, nested_rigs=rng.random() < 0.3, odd_paths=True, histories=True)
     return {'d': kgen.gen_dataset(rng, opts)}
 
